@@ -14,7 +14,7 @@ import (
 func init() { register("C08", runC08) }
 
 func runC08(c *Check, tier string) {
-	c.Decides = "the two-tier wrapper starts a write to both tiers on every path that can report success, and each tier's error reaches the returned error; a remote read fills the local tier with exactly the remote content and returns a fresh local read, a remote error is an error; a positive existence answer implies presence in the remote tier; in each remote backend all four operations address the object through the same function of (namespace, key), Exists distinguishes not-found from other errors, and Get never returns (nil, nil)."
+	c.Decides = "the two-tier wrapper starts a write to both tiers on every path that can report success, and each tier's error reaches the returned error; a remote read fills the local tier with exactly the remote content and returns a fresh local read, a remote error is an error; a positive existence answer implies presence in the remote tier; in each remote backend all four operations address the object through the same function of (namespace, key), Exists distinguishes not-found from other errors, and Get never returns (nil, nil); a digest is remembered as present only after the backend write succeeded; a failed copy feeding the two tier writers closes both pipes with the error."
 	c.NotDec = "real S3/GCS semantics, two-machine histories, content equality, hangs inside the SDKs."
 	w := findWrapper(c, "R08a")
 	ruleR08a(c, w)
@@ -26,6 +26,7 @@ func runC08(c *Check, tier string) {
 	// a digest is remembered as present only after it really is (otherwise a parallel writer of the same
 	// blob reports success while the upload it relies on can still fail: dangling reference in the remote)
 	ruleR07e(c, "R08f")
+	rulePipeErrorPropagated(c, "R08g")
 }
 
 type wrapperInfo struct {
